@@ -9,6 +9,10 @@ use std::{
 // only pub(crate) so that the macro calls can all use the same epoch static
 #[doc(hidden)]
 pub(crate) fn time_since_arbitrary_epoch() -> Duration {
+    #[cfg(metrique_verif)]
+    if let Some(forced) = verif::forced_time() {
+        return forced;
+    }
     static EPOCH: OnceLock<Instant> = OnceLock::new();
     Instant::now().duration_since(*EPOCH.get_or_init(Instant::now))
 }
@@ -48,6 +52,26 @@ macro_rules! rate_limited {
     }};
 }
 pub(crate) use rate_limited;
+
+/// Verification instrumentation (compiled only with `--cfg metrique_verif`): lets a harness choose the
+/// reading of the rate limiter's clock, so that the behaviour of `rate_limited!` over hours can be observed
+/// in microseconds.
+#[cfg(metrique_verif)]
+pub mod verif {
+    use std::sync::Mutex;
+    use std::time::Duration;
+
+    static FORCED: Mutex<Option<Duration>> = Mutex::new(None);
+
+    /// `Some(t)`: every later reading of the rate limiter's clock is `t`; `None`: the real clock again.
+    pub fn force_time(t: Option<Duration>) {
+        *FORCED.lock().unwrap() = t;
+    }
+
+    pub(super) fn forced_time() -> Option<Duration> {
+        *FORCED.lock().unwrap()
+    }
+}
 
 #[cfg(test)]
 mod test {
